@@ -718,6 +718,37 @@ func runC12(c *Ctx) {
 				}
 			}
 		}
+		if !okRef {
+			// the same table written with ifs: the write of the canceled descriptor is reached only where the state is
+			// known to be neither DiamondCanceled nor DiamondDone (guard atoms: nesting, early returns and `||` are the same)
+			ast.Inspect(f.Decl.Body, func(n ast.Node) bool {
+				call, ok := n.(*ast.CallExpr)
+				if !ok || calleeID(finfo, call) != "pkg/core.Diamond.uploadDescriptor" {
+					return true
+				}
+				atoms, _ := atomsAt(f, f.Decl.Body, call.Pos())
+				excluded := map[string]bool{}
+				for _, at := range atoms {
+					be, ok := ast.Unparen(at.Expr).(*ast.BinaryExpr)
+					if !ok || (be.Op != token.EQL && be.Op != token.NEQ) {
+						continue
+					}
+					if holdsEq := (be.Op == token.EQL) != at.Neg; holdsEq {
+						continue
+					}
+					for _, side := range [][2]ast.Expr{{be.X, be.Y}, {be.Y, be.X}} {
+						sel, isSel := ast.Unparen(side[1]).(*ast.SelectorExpr)
+						if isSel && strings.HasSuffix(describeExprAt(f, side[0]), ".State") {
+							excluded[sel.Sel.Name] = true
+						}
+					}
+				}
+				if excluded["DiamondCanceled"] && excluded["DiamondDone"] {
+					okRef = true
+				}
+				return true
+			})
+		}
 		c.check(okRef, "state-tables.cancel", f.ID, p.Pos(f.Decl.Pos()), "Cancel refuses done and canceled diamonds", "Cancel no longer refuses both DiamondDone and DiamondCanceled")
 		badC, nC := fb.dominatedBy(callTo("pkg/core.Diamond.downloadDescriptor"), callTo("pkg/core.Diamond.uploadDescriptor"))
 		c.check(nC == 1 && len(badC) == 0, "state-tables.cancel", f.ID+":reads-state-first", p.Pos(f.Decl.Pos()), "the current state is read before the canceled descriptor is written", "Cancel writes without reading the current state")
